@@ -31,7 +31,7 @@ type SpecLib struct {
 	Fns    map[string]*SpecFn
 }
 
-var declRe = regexp.MustCompile(`\((declare-fun|define-fun|define-fun-rec|declare-const)\s+([^\s()]+)`)
+var declRe = regexp.MustCompile(`\((declare-fun|define-fun|define-fun-rec|declare-const|declare-sort)\s+([^\s()]+)`)
 
 func LoadSpecs(dir string) (*SpecLib, error) {
 	lib := &SpecLib{ByName: map[string]*SpecChunk{}, Fns: map[string]*SpecFn{}}
